@@ -243,8 +243,15 @@ fn gen_case(rng: &mut Rng, out: &mut Out, tier: &str) {
     let tmax = *rng.pick(&[2i64, 3, 6]);
     let npool = rng.range(1, if tier == "thorough" { 10 } else { 8 });
     let mut uid = 0;
+    // values: mostly unique (so that the held value identifies the delivered message), but a third of
+    // the cases draw values from a set of two, so that a NEWER message often carries the SAME value
+    // as the held one (periodic snapshots of an unchanged balance / book / price)
+    let few_values = rng.chance(33);
     for _ in 0..npool {
         uid += 1;
+        if few_values {
+            uid = 1 + rng.below(2) as i64;
+        }
         let t = rng.range(1, tmax);
         match rng.below(100) {
             0..=29 => {
@@ -256,6 +263,9 @@ fn gen_case(rng: &mut Rng, out: &mut Out, tier: &str) {
                 let mut s = String::from("full");
                 for _ in 0..k {
                     uid += 1;
+                    if few_values {
+                        uid = 1 + rng.below(2) as i64;
+                    }
                     let a = rng.below(n as u64 + 1);
                     let t = rng.range(1, tmax);
                     s += &format!(" {a} {t} {} {}", 100 + uid, 50 + uid);
